@@ -53,6 +53,9 @@ impl Check for C08 {
         let lib = refactor_lib_opts(&mut rng, tier, sub, false);
         // optionally the server has seen an edit of every note before the rename (index built incrementally)
         let resend = rng.chance(1, 2);
+        // hook H2: the invariant walker sees every graph the handlers build (patch graphs included)
+        crate::hooks::install_graph_hook();
+        crate::hooks::graph_hook_reset();
         lsp::reset_log();
         mon::drain_thread_panics();
         let mut s = Server::start_mem(&lib, "");
@@ -136,6 +139,11 @@ impl Check for C08 {
                     rep.violate(&clause, &class_locus(class, &dir), format!("rename {} -> {} (site {} line {}): {}", old, new_key, key, line, detail), r);
                 }
             }
+        }
+        let (h2_graphs, h2_viol) = crate::hooks::graph_hook_take();
+        rep.count("h2_graphs_walked", h2_graphs);
+        for (c, d) in h2_viol.into_iter().take(2) {
+            rep.violate(&format!("forest-{}", c), "h2", d, json!({"case": case}));
         }
         if !s.shutdown() {
             rep.inconclusive.push("unclean shutdown".into());
